@@ -231,9 +231,14 @@ def function_kind(fn):
     return None
 
 
-_constkey = ctypes.pythonapi._PyCode_ConstantKey
-_constkey.argtypes = [ctypes.py_object]
-_constkey.restype = ctypes.py_object
+try:
+    _constkey = ctypes.pythonapi._PyCode_ConstantKey
+    _constkey.argtypes = [ctypes.py_object]
+    _constkey.restype = ctypes.py_object
+    HAVE_CKEY = True
+except AttributeError:  # not exported by this interpreter
+    _constkey = None
+    HAVE_CKEY = False
 
 
 def _nan_merge(v):
